@@ -44,7 +44,7 @@ def signature(case, j):
 
 
 def gen(rng, tier, mult=1):
-    n = (500 if tier == "quick" else 8000) * mult
+    n = (2000 if tier == "quick" else 30000) * mult
     kinds = ("bytesio", "bytesio", "raw", "file", "file", "pipe")
     for i in range(n):
         c = T.gen_transfer_case(rng, opt_style=["weird", "mixed", "blksize", "timeout", "tsize", "mixed"][i % 6],
